@@ -1105,6 +1105,21 @@ class UGrid(DimensionConvention[UGridKind, UGridIndex]):
             dimensions[UGridKind.edge] = [self.topology.edge_dimension]
         return dimensions
 
+    @property
+    def grid_shape(self) -> dict[UGridKind, Sequence[int]]:
+        # The edge dimension can be named by the mesh topology
+        # without any variable in the dataset using it,
+        # in which case the dataset does not have that dimension.
+        # Use the element counts from the topology,
+        # which computes the number of edges if required.
+        shape: dict[UGridKind, Sequence[int]] = {
+            UGridKind.node: (self.topology.node_count,),
+            UGridKind.face: (self.topology.face_count,),
+        }
+        if self.topology.has_edge_dimension:
+            shape[UGridKind.edge] = (self.topology.edge_count,)
+        return shape
+
     def unpack_index(self, index: UGridIndex) -> tuple[UGridKind, Sequence[int]]:
         return index[0], index[1:]
 
